@@ -84,7 +84,11 @@ type TxSpec struct {
 	Replay    bool      `json:"replay,omitempty"` // re-deliver the last bytes this signer produced (duplicate)
 	Check     bool      `json:"check,omitempty"`  // pass through CheckTx first (admission recorded); delivered regardless unless CheckOnly
 	CheckOnly bool      `json:"check_only,omitempty"`
-	SimOnly   bool      `json:"sim_only,omitempty"` // only gas-simulated (/app/simulate), as a wallet does before signing; never delivered
+	// Multi: every account the messages name signs (in the order the chain requires: first
+	// appearance over the messages), the first one pays; without it only Signer (and an explicit
+	// Payer) sign, whatever the messages name
+	Multi   bool `json:"multi,omitempty"`
+	SimOnly bool `json:"sim_only,omitempty"` // only gas-simulated (/app/simulate), as a wallet does before signing; never delivered
 	Tag       string    `json:"tag,omitempty"`
 }
 
